@@ -852,7 +852,9 @@ func (lc *leaderController) write(ctx context.Context, requestSupplier func(offs
 	walLog := lc.wal
 	tracker := lc.quorumAckTracker
 	term := lc.term
-	lc.Unlock()
+	// The lock is held until the entry has been handed to the WAL: offsets must reach the WAL in the
+	// order they were allocated, or the WAL rejects the entry that comes early ("N can not immediately
+	// follow M") and, with that offset lost, every later one.
 	if vhook.Enabled {
 		vhook.At("leader.write.allocated", lc.shardId, term, newOffset)
 	}
@@ -867,10 +869,12 @@ func (lc *leaderController) write(ctx context.Context, requestSupplier func(offs
 	logEntryValue.Value = &proto.LogEntryValue_Requests{Requests: &proto.WriteRequests{Writes: []*proto.WriteRequest{request}}}
 	value, err := logEntryValue.MarshalVT()
 	if err != nil {
+		lc.Unlock()
 		cb.OnCompleteError(err)
 		return
 	}
 
+	defer lc.Unlock()
 	walLog.AppendAndSync(&proto.LogEntry{
 		Term:      term,
 		Offset:    newOffset,
